@@ -298,17 +298,34 @@ def transpose_chars(event: E) -> None:
         b.swap_characters_before_cursor()
 
 
-@register("uppercase-word")
-def uppercase_word(event: E) -> None:
+def _transform_following_words(event: E, transform: Callable[[str], str]) -> None:
     """
-    Uppercase the current (or following) word.
+    Replace the current (or following) word, `event.arg` times, by its
+    transformation and move the cursor behind it. Only the characters up to
+    the end of that word are touched. (Also when the word is on a following
+    line, or when the transformation changes the length of the text.)
     """
     buff = event.current_buffer
 
     for i in range(event.arg):
         pos = buff.document.find_next_word_ending()
-        words = buff.document.text_after_cursor[:pos]
-        buff.insert_text(words.upper(), overwrite=True)
+        if not pos:
+            break
+
+        cursor_position = buff.cursor_position
+        words = transform(buff.text[cursor_position : cursor_position + pos])
+        buff.document = Document(
+            buff.text[:cursor_position] + words + buff.text[cursor_position + pos :],
+            cursor_position + len(words),
+        )
+
+
+@register("uppercase-word")
+def uppercase_word(event: E) -> None:
+    """
+    Uppercase the current (or following) word.
+    """
+    _transform_following_words(event, str.upper)
 
 
 @register("downcase-word")
@@ -316,12 +333,7 @@ def downcase_word(event: E) -> None:
     """
     Lowercase the current (or following) word.
     """
-    buff = event.current_buffer
-
-    for i in range(event.arg):  # XXX: not DRY: see meta_c and meta_u!!
-        pos = buff.document.find_next_word_ending()
-        words = buff.document.text_after_cursor[:pos]
-        buff.insert_text(words.lower(), overwrite=True)
+    _transform_following_words(event, str.lower)
 
 
 @register("capitalize-word")
@@ -329,12 +341,7 @@ def capitalize_word(event: E) -> None:
     """
     Capitalize the current (or following) word.
     """
-    buff = event.current_buffer
-
-    for i in range(event.arg):
-        pos = buff.document.find_next_word_ending()
-        words = buff.document.text_after_cursor[:pos]
-        buff.insert_text(words.title(), overwrite=True)
+    _transform_following_words(event, str.title)
 
 
 @register("quoted-insert")
